@@ -10,7 +10,7 @@ checks=${*:-$id}
 dir=$ROOT/seeded/$what
 [ -f "$dir/patch.diff" ] || { echo "no $dir/patch.diff"; exit 2; }
 if [ -n "$(git -C /repo status --porcelain --untracked-files=no)" ]; then echo "/repo is not clean"; exit 2; fi
-git -C /repo apply "$dir/patch.diff" || { echo "patch does not apply"; exit 2; }
+git -C /repo apply "$dir/patch.diff" 2>/dev/null || git -C /repo apply -C1 "$dir/patch.diff" || { echo "$what patch does not apply"; exit 2; }
 trap 'git -C /repo checkout -- .' EXIT
 res="{}"
 for c in $checks; do
